@@ -107,9 +107,13 @@ func (fe *FE) emitOpts(ob *Obligation, noQuant bool) string {
 		}
 	}
 	if strings.Contains(bs, "kindName") {
+		// kindName is injective on 0..26: kindIdx is its inverse
+		sb.WriteString("(declare-fun kindIdx (Str) Int)\n")
 		for k, nm := range reflectKindNames {
 			fmt.Fprintf(&sb, "(assert (= (kindName %d) %s))\n", k, fe.strLits[nm])
+			fmt.Fprintf(&sb, "(assert (= (kindIdx %s) %d))\n", fe.strLits[nm], k)
 		}
+		sb.WriteString("(assert (forall ((k Int)) (! (=> (and (<= 0 k) (<= k 26)) (= (kindIdx (kindName k)) k)) :pattern ((kindName k)))))\n")
 	}
 	if noQuant {
 		for _, ln := range strings.Split(fe.V.smtPrelude, "\n") {
@@ -247,47 +251,14 @@ func solveAll(fes []*FE, outDir string, timeout, workers int, second bool) {
 					continue
 				}
 				mu.Unlock()
-				file := filepath.Join(outDir, sanitize(j.ob.Name)+"_"+h[:10]+".smt2")
-				os.WriteFile(file, []byte(text), 0o644)
+				file0 := filepath.Join(outDir, sanitize(j.ob.Name)+"_"+h[:10]+".smt2")
+				os.WriteFile(file0, []byte(text), 0o644)
+				file := file0
 				to := timeout
 				if j.ob.Smoke {
 					to = 2
 				}
-				// fast path: one solver with a short limit; the full portfolio only when it does not decide
-				r := race(file, 2, "z3-new")
-				if r.res != "unsat" && r.res != "sat" && (j.ob.Smoke || splitGoal(j.ob.Goal) == nil) {
-					r = race(file, to, "")
-				}
-				if r.res != "unsat" && r.res != "sat" && !j.ob.Smoke {
-					// the solvers did not decide the goal as a whole: try it conjunct by conjunct
-					if pieces := splitGoal(j.ob.Goal); pieces != nil {
-						all := true
-						secs := r.secs
-						for pi, pg := range pieces {
-							ob2 := *j.ob
-							ob2.Goal = pg
-							t2 := j.fe.emit(&ob2)
-							f2 := strings.TrimSuffix(file, ".smt2") + fmt.Sprintf(".p%d.smt2", pi)
-							os.WriteFile(f2, []byte(t2), 0o644)
-							r2 := race(f2, 2, "z3-new")
-							if r2.res != "unsat" && r2.res != "sat" {
-								r2 = race(f2, to, "")
-							}
-							secs += r2.secs
-							if r2.res != "unsat" {
-								all = false
-								r = r2
-								r.secs = secs
-								file = f2
-								break
-							}
-							os.Remove(f2)
-						}
-						if all {
-							r = solveResult{"unsat", "split(" + fmt.Sprint(len(pieces)) + ")", "", secs}
-						}
-					}
-				}
+				r, file := j.fe.decide(j.ob, file, to, 0)
 				j.ob.Result, j.ob.Solver, j.ob.Seconds, j.ob.File = r.res, r.solver, r.secs, file
 				if r.res == "sat" {
 					j.ob.Model = r.out
@@ -340,4 +311,86 @@ func solveAll(fes []*FE, outDir string, timeout, workers int, second bool) {
 	}
 	close(ch)
 	wg.Wait()
+}
+
+// decide one obligation: fast path, portfolio, goal splitting (conjunct by conjunct), then case splitting on the
+// last join disjunction of the context (states merged at a join point: one case per incoming path).
+func (fe *FE) decide(ob *Obligation, file string, to, depth int) (solveResult, string) {
+	// fast path: one solver with a short limit; the full portfolio only when it does not decide
+	r := race(file, 2, "z3-new")
+	if r.res != "unsat" && r.res != "sat" && (ob.Smoke || splitGoal(ob.Goal) == nil) {
+		r = race(file, to, "")
+	}
+	if r.res != "unsat" && r.res != "sat" && !ob.Smoke {
+		// the solvers did not decide the goal as a whole: try it conjunct by conjunct
+		if pieces := splitGoal(ob.Goal); pieces != nil {
+			all := true
+			secs := r.secs
+			for pi, pg := range pieces {
+				ob2 := *ob
+				ob2.Goal = pg
+				t2 := fe.emit(&ob2)
+				f2 := strings.TrimSuffix(file, ".smt2") + fmt.Sprintf(".p%d.smt2", pi)
+				os.WriteFile(f2, []byte(t2), 0o644)
+				r2 := race(f2, 2, "z3-new")
+				if r2.res != "unsat" && r2.res != "sat" {
+					r2 = race(f2, to, "")
+				}
+				if r2.res != "unsat" && r2.res != "sat" && depth < 3 {
+					r2, f2 = fe.caseSplit(&ob2, f2, to, depth, r2)
+				}
+				secs += r2.secs
+				if r2.res != "unsat" {
+					all = false
+					r = r2
+					r.secs = secs
+					file = f2
+					break
+				}
+				os.Remove(f2)
+			}
+			if all {
+				r = solveResult{"unsat", "split(" + fmt.Sprint(len(pieces)) + ")", "", secs}
+			}
+			return r, file
+		}
+	}
+	if r.res != "unsat" && r.res != "sat" && !ob.Smoke && depth < 3 {
+		r, file = fe.caseSplit(ob, file, to, depth, r)
+	}
+	return r, file
+}
+
+// caseSplit: the context contains (or d1 ... dn) from a state merge; prove the goal under each di separately.
+func (fe *FE) caseSplit(ob *Obligation, file string, to, depth int, prev solveResult) (solveResult, string) {
+	idx := -1
+	var cases []string
+	for i := len(ob.Facts) - 1; i >= 0; i-- {
+		fe.jmu.Lock()
+		cs, ok := fe.joinDisj[ob.Facts[i]]
+		fe.jmu.Unlock()
+		if ok {
+			idx, cases = i, cs
+			break
+		}
+	}
+	if idx < 0 {
+		return prev, file
+	}
+	secs := prev.secs
+	for ci, c := range cases {
+		ob2 := *ob
+		ob2.Facts = append([]string(nil), ob.Facts...)
+		ob2.Facts[idx] = c
+		f2 := strings.TrimSuffix(file, ".smt2") + fmt.Sprintf(".c%d.smt2", ci)
+		os.WriteFile(f2, []byte(fe.emit(&ob2)), 0o644)
+		r2, f3 := fe.decide(&ob2, f2, to, depth+1)
+		secs += r2.secs
+		if r2.res != "unsat" {
+			r2.secs = secs
+			return r2, f3
+		}
+		os.Remove(f2)
+	}
+	return solveResult{"unsat", fmt.Sprintf("cases(%d)", len(cases)), "", secs}, file
 }
